@@ -875,6 +875,21 @@ func (x *Exec) applyContract(fr *frame, st *State, site ssa.Instruction, con *Fn
 		}
 		c.AddFact(st.pc, t, "ensures of "+shortKey(key))
 	}
+	if con.Defines != nil && len(vals) == 1 {
+		if dv, err := func() (v Value, err error) {
+			defer func() {
+				if r := recover(); r != nil {
+					err = fmt.Errorf("%v", r)
+				}
+			}()
+			return post.eval(con.Defines.E), nil
+		}(); err == nil && len(dv.L) == len(vals[0].L) {
+			for i := range dv.L {
+				c.AddFact(st.pc, eq(vals[0].L[i], dv.L[i]), "result of "+shortKey(key)+" by definition")
+			}
+			c.Assume["the result of "+shortKey(key)+" is named by a specification term (deterministic, side-effect free function)"] = true
+		}
+	}
 	return res
 }
 
